@@ -449,17 +449,6 @@ Proof.
   - apply Hnc in Hr. destruct Hr as (_ & _ & H). discriminate.
 Qed.
 
-(* the faithful model of compute_constrained_path is the reference search whenever explicit_path declines *)
-Theorem model_ccp_search n s t nodes_list strict_list :
-  last nodes_list (t + 1) = t ->
-  explicit_path n (removelast nodes_list) s t = None ->
-  model_ccp n s t nodes_list strict_list =
-    Ok (CSearch (model_route (ngraph n) s t (removelast nodes_list)
-                             (existsb (fun b => b) (removelast strict_list)))).
-Proof.
-  intros Hl He. unfold model_ccp. rewrite Hl, Z.eqb_refl. cbn [negb]. rewrite He. reflexivity.
-Qed.
-
 (* ------------------------------------------------------------------ dual-potential certificate *)
 Lemma succs_key : forall g u vw, In vw (succs g u) -> exists r, In r g /\ fst r = u.
 Proof.
@@ -661,43 +650,91 @@ Proof.
   - rewrite rev_length. unfold roadms in *. apply Z.leb_le in Hlen. lia.
 Qed.
 
-(* ------------------------------------------------------------------ explicit_path: known defects, as refutations of the
-   full-strength statement "whatever model_ccp returns is a route for the request" (DESIGN section 8, F11).
-   Three ROADM sites A B C with lines A-B and A-C:
+(* ------------------------------------------------------------------ explicit_path and compute_constrained_path *)
+Lemma chain_prefix n : forall rest o0 acc p, chain n o0 rest acc = Some p -> exists tail, p = acc ++ tail.
+Proof.
+  induction rest as [|o r IH]; intros o0 acc p H; cbn [chain] in H.
+  - injection H as <-. exists []. rewrite app_nil_r. reflexivity.
+  - destruct (oms_els n o0) as [|a0 e0]; [discriminate|]. destruct (oms_els n o) as [|h e1]; [discriminate|].
+    destruct (last (a0 :: e0) 0 =? h); [|discriminate].
+    destruct (IH _ _ _ H) as (tail & ->). exists ((h :: e1) ++ tail). rewrite app_assoc. reflexivity.
+Qed.
+
+Lemma explicit_raw_shape n inc s t p :
+  explicit_path_raw n inc s t = Some p -> NoDup p /\ hd_error p = Some s.
+Proof.
+  unfold explicit_path_raw. intros H.
+  destruct (unique_ordered _) as [|o0 rest]; [discriminate|].
+  destruct (succs (ngraph n) s) as [|[nx w] l]; [discriminate|].
+  destruct (first_pred (ngraph n) t) as [pv|]; [|discriminate].
+  destruct (oms_els n o0) as [|h e] eqn:E0; [discriminate|].
+  destruct (oms_els n (last (o0 :: rest) o0)) as [|h' e']; [discriminate|].
+  destruct ((h =? _) && _); [|discriminate].
+  destruct (chain n o0 rest (s :: h :: e)) as [q|] eqn:Ec; [|discriminate]. injection H as <-.
+  destruct (chain_prefix _ _ _ _ _ Ec) as (tail & ->). split.
+  - apply uo_fresh.
+  - unfold unique_ordered. cbn [app uo memZ]. reflexivity.
+Qed.
+
+(* what an explicit answer guarantees: it is a route of the request (real links, loop-free, from source to
+   destination, the WHOLE include list crossed in order) *)
+Theorem explicit_path_route n inc s t p :
+  explicit_path n inc s t = Some p -> Route (ngraph n) s t inc p.
+Proof.
+  unfold explicit_path, explicit_check. destruct (explicit_path_raw n inc s t) as [q|] eqn:Er; [|discriminate].
+  destruct (lastb q t && walkb (ngraph n) q && ispart inc q) eqn:Ec; [|discriminate]. intros H. injection H as <-.
+  rewrite !andb_true_iff in Ec. destruct Ec as ((Hl & Hw) & Hi).
+  destruct (explicit_raw_shape _ _ _ _ _ Er) as (Hnd & Hh).
+  unfold Route. unfold lastb in Hl. repeat split.
+  - apply walkb_spec. exact Hw.
+  - exact Hnd.
+  - exact Hh.
+  - lia.
+  - apply ispart_spec; assumption.
+Qed.
+
+(* compute_constrained_path, without guard: the answer is either an explicit route of the request or the reference
+   search (whose result is characterised by model_route_spec) *)
+Theorem model_ccp_spec n s t nodes_list strict_list :
+  last nodes_list (t + 1) = t ->
+  exists r, model_ccp n s t nodes_list strict_list = Ok r /\
+    match r with
+    | CExplicit p => Route (ngraph n) s t (removelast nodes_list) p
+    | CSearch o => explicit_path n (removelast nodes_list) s t = None /\
+                   o = model_route (ngraph n) s t (removelast nodes_list)
+                                   (existsb (fun b => b) (removelast strict_list))
+    end.
+Proof.
+  intros Hl. unfold model_ccp. rewrite Hl, Z.eqb_refl. cbn [negb].
+  destruct (explicit_path n (removelast nodes_list) s t) as [p|] eqn:E.
+  - exists (CExplicit p). split; [reflexivity|]. apply explicit_path_route. exact E.
+  - eexists. split; [reflexivity|]. split; reflexivity.
+Qed.
+
+(* hence: whatever path compute_constrained_path returns is a route for the effective constraints, and a block is
+   only ever NO_PATH / NO_PATH_WITH_CONSTRAINT under the conditions of model_route_spec *)
+Corollary model_ccp_path_is_route n s t nodes_list strict_list r p :
+  last nodes_list (t + 1) = t ->
+  model_ccp n s t nodes_list strict_list = Ok r ->
+  (r = CExplicit p \/ r = CSearch (RPath p)) ->
+  Route (ngraph n) s t (removelast nodes_list) p \/ Route (ngraph n) s t [] p.
+Proof.
+  intros Hl Hr Hp. destruct (model_ccp_spec n s t nodes_list strict_list Hl) as (r' & Hr' & Hm).
+  rewrite Hr in Hr'. injection Hr' as <-. destruct Hp as [-> | ->].
+  - left. exact Hm.
+  - destruct Hm as (_ & Hm).
+    destruct (model_route_spec (ngraph n) s t (removelast nodes_list) (existsb (fun b => b) (removelast strict_list)))
+      as (Hpath & _). cbn zeta in Hpath. symmetry in Hm.
+    destruct (Hpath p Hm) as [(_ & (H & _))|(_ & _ & (H & _))]; [left|right]; exact H.
+Qed.
+
+(* three ROADM sites A B C with lines A-B and A-C (used by the examples):
      0 trx A, 1 roadm A, 2 trx B, 3 roadm B, 4 trx C, 5 roadm C, 6 = A->B, 7 = B->A, 8 = A->C, 9 = C->A *)
 Definition f11_net : net :=
   mkNet [(0, [(1, 1)]); (1, [(0, 1); (6, 1); (8, 1)]); (2, [(3, 1)]); (3, [(2, 1); (7, 1)]);
          (4, [(5, 1)]); (5, [(4, 1); (9, 1)]); (6, [(3, 100)]); (7, [(1, 100)]); (8, [(5, 100)]); (9, [(1, 100)])]
         [KT; KR; KT; KR; KT; KR; KL; KL; KL; KL]
         [([1; 6; 3], Some 1); ([3; 7; 1], Some 0); ([1; 8; 5], Some 3); ([5; 9; 1], Some 2)].
-
-(* F11: include list A->B, B->A, A->C given hop by hop: the "explicit path" is returned although it is not a walk *)
-Theorem explicit_loop_refuted :
-  exists n s t nodes_list strict_list p,
-    model_ccp n s t nodes_list strict_list = Ok (CExplicit p) /\ walkb (ngraph n) p = false.
-Proof.
-  exists f11_net, 0, 4, [6; 7; 8; 4], [true; true; true; true], [0; 1; 6; 3; 7; 8; 5; 4].
-  split; vm_compute; reflexivity.
-Qed.
-
-(* F11b: a STRICT ROADM include that the explicit path does not cross is ignored (the request should be blocked) *)
-Theorem explicit_skips_include_refuted :
-  exists n s t nodes_list strict_list p,
-    model_ccp n s t nodes_list strict_list = Ok (CExplicit p) /\
-    route_ok (ngraph n) s t [] p = true /\ ispart (removelast nodes_list) p = false /\
-    model_route (ngraph n) s t (removelast nodes_list) (existsb (fun b => b) (removelast strict_list))
-      = RBlock "NO_PATH_WITH_CONSTRAINT".
-Proof.
-  exists f11_net, 0, 4, [3; 8; 4], [true; true; true], [0; 1; 8; 5; 4].
-  repeat split; vm_compute; reflexivity.
-Qed.
-
-(* what does hold of an explicit path: once validated it is a route of the request *)
-Corollary ccp_explicit_validated n s t nodes_list strict_list p :
-  model_ccp n s t nodes_list strict_list = Ok (CExplicit p) ->
-  route_ok (ngraph n) s t (removelast nodes_list) p = true ->
-  Route (ngraph n) s t (removelast nodes_list) p.
-Proof. intros _ H. apply route_ok_spec. exact H. Qed.
 
 (* ------------------------------------------------------------------ route-list clean-up *)
 Definition usable (n : net) (x : Z) : bool := is_roadm n x || is_line n x.
@@ -805,20 +842,54 @@ Proof.
     + intros z Hz. apply Hi1, Hi2, Hi. exact Hz.
 Qed.
 
-(* ------------------------------------------------------------------ proposed repair of explicit_path (see Model/Route.v) *)
-(* partial: a validated explicit path is a route of the request; that it is also the shortest one is not proved
-   (it is the only route crossing every listed OMS, which needs the chain structure of an OMS), the oracle checks it *)
-Theorem model_ccp_checked_partial n s t nodes_list strict_list r :
-  model_ccp_checked n s t nodes_list strict_list = Ok r ->
-  match r with
-  | CExplicit p => Route (ngraph n) s t (removelast nodes_list) p
-  | CSearch o => o = model_route (ngraph n) s t (removelast nodes_list) (existsb (fun b => b) (removelast strict_list))
-  end.
+
+(* ------------------------------------------------------------------ leg-wise certificate (include lists on large meshes) *)
+Lemma walk_split g : forall k q x, is_walk g q -> nth_error q k = Some x ->
+  is_walk g (firstn (S k) q) /\ is_walk g (skipn k q) /\
+  weight g q = weight g (firstn (S k) q) + weight g (skipn k q) /\
+  hd 0 (firstn (S k) q) = hd 0 q /\ last (firstn (S k) q) 0 = x /\
+  hd_error (skipn k q) = Some x /\ (forall d, last (skipn k q) d = last q d).
 Proof.
-  unfold model_ccp_checked, explicit_path_checked. destruct (negb (last nodes_list (t + 1) =? t)); [discriminate|].
-  destruct (explicit_path n (removelast nodes_list) s t) as [p|].
-  - destruct (route_ok (ngraph n) s t (removelast nodes_list) p) eqn:E.
-    + intros H. injection H as <-. apply route_ok_spec. exact E.
-    + intros H. injection H as <-. reflexivity.
-  - intros H. injection H as <-. reflexivity.
+  induction k as [|k IH]; intros q x Hw Hn.
+  - destruct q as [|a q']; [discriminate|]. cbn in Hn. injection Hn as ->.
+    cbn [firstn skipn]. repeat split; try reflexivity; try exact Hw; cbn; lia.
+  - destruct q as [|a q']; [discriminate|]. cbn [nth_error] in Hn.
+    destruct q' as [|b q'']; [destruct k; discriminate|].
+    destruct Hw as (He & Hw'). destruct (IH _ _ Hw' Hn) as (H1 & H2 & H3 & H4 & H5 & H6 & H7).
+    change (firstn (S (S k)) (a :: b :: q'')) with (a :: firstn (S k) (b :: q'')).
+    change (skipn (S k) (a :: b :: q'')) with (skipn k (b :: q'')).
+    change (firstn (S k) (b :: q'')) with (b :: firstn k q'') in *.
+    split; [split; assumption|]. split; [exact H2|]. split; [rewrite !weight_cons2; lia|].
+    split; [reflexivity|]. split; [rewrite last_cons_cons; exact H5|]. split; [exact H6|].
+    intros d. rewrite last_cons_cons. apply H7.
+Qed.
+
+Lemma seg_bound_le g t : forall inc pis u q,
+  forallb (feasible g) pis = true -> length pis = S (length inc) ->
+  is_walk g q -> hd_error q = Some u -> last q t = t -> visits inc q ->
+  seg_bound pis u (inc ++ [t]) <= weight g q.
+Proof.
+  induction inc as [|x inc' IH]; intros pis u q Hf Hlen Hw Hh Hl Hv.
+  - destruct pis as [|pi [|? ?]]; cbn in Hlen; try lia. cbn [forallb] in Hf. apply andb_true_iff in Hf.
+    destruct Hf as (Hf & _). cbn [app seg_bound]. pose proof (potential_walk g pi Hf q Hw) as H.
+    destruct q as [|a q']; [cbn in Hw; contradiction|]. cbn in Hh. injection Hh as ->. cbn [hd] in H.
+    rewrite (last_indep (u :: q') 0 t) in H by discriminate. rewrite Hl in H. lia.
+  - destruct pis as [|pi pis']; cbn in Hlen; [lia|]. cbn [forallb] in Hf. apply andb_true_iff in Hf.
+    destruct Hf as (Hf & Hf'). cbn [app seg_bound].
+    destruct (visits_cons_inv _ _ Hv _ _ eq_refl) as (k & Hk & Hv').
+    destruct (walk_split g k q x Hw Hk) as (H1 & H2 & H3 & H4 & H5 & H6 & H7).
+    pose proof (potential_walk g pi Hf _ H1) as Hp. rewrite H4, H5 in Hp.
+    assert (Hu : hd 0 q = u) by (destruct q; [discriminate|cbn in Hh; injection Hh as ->; reflexivity]).
+    rewrite Hu in Hp.
+    assert (Hrest : seg_bound pis' x (inc' ++ [t]) <= weight g (skipn k q)).
+    { apply IH; try assumption; [lia|]. rewrite H7. exact Hl. }
+    lia.
+Qed.
+
+Theorem seg_cert g pis s t inc p :
+  seg_cert_ok g pis s t inc p = true ->
+  forall q, is_walk g q -> hd_error q = Some s -> last q t = t -> visits inc q -> weight g p <= weight g q.
+Proof.
+  unfold seg_cert_ok. rewrite !andb_true_iff. intros ((Hf & Hlen) & Heq) q Hw Hh Hl Hv.
+  apply Nat.eqb_eq in Hlen. pose proof (seg_bound_le g t inc pis s q Hf Hlen Hw Hh Hl Hv). lia.
 Qed.
